@@ -155,12 +155,15 @@ pub struct Record {
     /// priorities in draw order (hook seam); draws beyond the list get 0x80000000
     pub priorities: Vec<u32>,
     pub ops: Vec<Op>,
+    /// per-treap size cap of the run (inserts beyond it are skipped); 48 except in deep runs
+    pub max_len: usize,
 }
 
 impl Record {
     pub fn to_json(&self) -> Json {
         Json::obj()
             .with("engine", Json::s("treapsim"))
+            .with("max_len", Json::u(self.max_len))
             .with("priorities", Json::Arr(self.priorities.iter().map(|p| Json::n(*p)).collect()))
             .with("ops", Json::Arr(self.ops.iter().map(|o| o.to_json()).collect()))
     }
@@ -168,6 +171,7 @@ impl Record {
         Some(Record {
             priorities: j.arr_of("priorities")?.iter().map(|p| p.as_num().map(|n| n as u32)).collect::<Option<Vec<_>>>()?,
             ops: j.arr_of("ops")?.iter().map(Op::from_json).collect::<Option<Vec<_>>>()?,
+            max_len: j.num_of("max_len").map(|n| n as usize).unwrap_or(MAX_LEN),
         })
     }
 }
@@ -182,45 +186,64 @@ pub struct HeapDir {
     pub ties: u64,
 }
 
-/// Returns the subsequence represented by `node`'s subtree *at the node's own level* (i.e.
-/// with the pending maps of the node and its descendants applied, those of its ancestors not),
-/// checking every stored aggregate on the way.  Never pushes: observation must not perturb the
-/// lazy state being explored.
-fn walk(node: &TreapNode<It>, depth: usize, max_depth: &mut usize, heap: &mut HeapDir, shape: &mut Digest, pending_nodes: &mut u32) -> Result<Vec<(u32, u64)>, String> {
+const EMPTY_AGG: Agg = Agg { n: 0, sum: 0, hash: 0, pw: 1, g: 0 };
+
+fn agg_apply(x: Agg, a: u64, b: u64) -> Agg {
+    Agg { n: x.n, sum: addmod(mulmod(a, x.sum), mulmod(b, x.n as u64 % P)), hash: addmod(mulmod(a, x.hash), mulmod(b, x.g)), pw: x.pw, g: x.g }
+}
+
+fn agg_combine(l: Agg, x: u64, r: Agg) -> Agg {
+    let lpb = mulmod(l.pw, BASE);
+    Agg {
+        n: l.n + 1 + r.n,
+        sum: addmod(addmod(l.sum, x), r.sum),
+        hash: addmod(addmod(l.hash, mulmod(l.pw, x)), mulmod(lpb, r.hash)),
+        pw: mulmod(lpb, r.pw),
+        g: addmod(addmod(l.g, l.pw), mulmod(lpb, r.g)),
+    }
+}
+
+/// One pass over the subtree of `node` (linear in its size).  `anc` is the composition of the
+/// pending maps of all proper ancestors (nearest applied first): it takes a value at the node's
+/// own level to the value the sequence really holds.  Appends the represented elements to `seq`
+/// in order and returns the true aggregate of the subtree *at the node's own level* (pending
+/// maps of the node and its descendants applied, those of its ancestors not), which is what
+/// the node must have stored.  Never pushes: observation must not perturb the lazy state.
+#[allow(clippy::too_many_arguments)]
+fn walk(node: &TreapNode<It>, depth: usize, anc: (u64, u64), seq: &mut Vec<(u32, u64)>, max_depth: &mut usize, heap: &mut HeapDir, shape: &mut Digest, pending_nodes: &mut u32) -> Result<Agg, String> {
     *max_depth = (*max_depth).max(depth);
     let it = &node.item;
     if !it.pending_is_identity() {
         *pending_nodes += 1;
         shape.byte(b'p');
     }
-    let mut seq: Vec<(u32, u64)> = Vec::with_capacity(it.n.min(4 * MAX_LEN));
+    // for the children: first this node's pending map, then everything above
+    let below = (mulmod(anc.0, it.pa), addmod(mulmod(anc.0, it.pb), anc.1));
     shape.byte(b'(');
-    if let Some(l) = &node.left {
-        note_edge(node.priority, l.priority, heap);
-        for (uid, v) in walk(l, depth + 1, max_depth, heap, shape, pending_nodes)? {
-            seq.push((uid, addmod(mulmod(it.pa, v), it.pb)));
-        }
+    let mut l = EMPTY_AGG;
+    if let Some(c) = &node.left {
+        note_edge(node.priority, c.priority, heap);
+        l = walk(c, depth + 1, below, seq, max_depth, heap, shape, pending_nodes)?;
     }
     shape.byte(b'.');
-    seq.push((it.uid, it.x));
-    if let Some(r) = &node.right {
-        note_edge(node.priority, r.priority, heap);
-        for (uid, v) in walk(r, depth + 1, max_depth, heap, shape, pending_nodes)? {
-            seq.push((uid, addmod(mulmod(it.pa, v), it.pb)));
-        }
+    seq.push((it.uid, addmod(mulmod(anc.0, it.x), anc.1)));
+    let mut r = EMPTY_AGG;
+    if let Some(c) = &node.right {
+        note_edge(node.priority, c.priority, heap);
+        r = walk(c, depth + 1, below, seq, max_depth, heap, shape, pending_nodes)?;
     }
     shape.byte(b')');
-    let want = fold(seq.iter().map(|(_, v)| *v));
+    let want = agg_combine(agg_apply(l, it.pa, it.pb), it.x, agg_apply(r, it.pa, it.pb));
     if it.agg() != want {
         return Err(format!(
             "aggregate stored at the subtree root with uid {} is {:?} but the fold of exactly its {} elements is {:?}",
             it.uid,
             it.agg(),
-            seq.len(),
+            want.n,
             want
         ));
     }
-    Ok(seq)
+    Ok(want)
 }
 
 fn note_edge(parent: u32, child: u32, heap: &mut HeapDir) {
@@ -246,10 +269,10 @@ pub fn observe(t: &Treap<It>) -> Result<WalkOut, String> {
     let mut heap = HeapDir::default();
     let mut shape = Digest::new();
     let mut pending = 0;
-    let seq = match &t.root {
-        Some(r) => walk(r, 1, &mut max_depth, &mut heap, &mut shape, &mut pending)?,
-        None => Vec::new(),
-    };
+    let mut seq = Vec::with_capacity(t.root.as_ref().map(|r| r.item.n.min(1024)).unwrap_or(0));
+    if let Some(r) = &t.root {
+        walk(r, 1, (1, 0), &mut seq, &mut max_depth, &mut heap, &mut shape, &mut pending)?;
+    }
     Ok(WalkOut { seq, height: max_depth, heap, state_digest: shape.finish(), pending_nodes: pending })
 }
 
@@ -362,6 +385,7 @@ pub struct Pool {
     /// last whole-range modification kind per slot, to detect assign/add orderings (probe only)
     last_mod: Vec<Option<(bool, usize, usize)>>,
     next_uid: u32,
+    max_len: usize,
 }
 
 fn nonid() -> u64 {
@@ -384,7 +408,7 @@ fn apply(pool: &mut Pool, op: &Op, st: &mut ExecStats) -> Result<(), (&'static s
     match op {
         Op::FromItem { slot, value } => {
             let s = slot % POOL;
-            if pool.model[s].len() >= MAX_LEN {
+            if pool.model[s].len() >= pool.max_len {
                 return Ok(());
             }
             let uid = pool.next_uid;
@@ -398,7 +422,7 @@ fn apply(pool: &mut Pool, op: &Op, st: &mut ExecStats) -> Result<(), (&'static s
         }
         Op::InsertAt { slot, pos, value } => {
             let s = slot % POOL;
-            if pool.model[s].len() >= MAX_LEN {
+            if pool.model[s].len() >= pool.max_len {
                 return Ok(());
             }
             let p = pos % (pool.model[s].len() + 1);
@@ -411,7 +435,7 @@ fn apply(pool: &mut Pool, op: &Op, st: &mut ExecStats) -> Result<(), (&'static s
         }
         Op::ManualInsert { slot, pos, value, priority } => {
             let s = slot % POOL;
-            if pool.model[s].len() >= MAX_LEN {
+            if pool.model[s].len() >= pool.max_len {
                 return Ok(());
             }
             let p = pos % (pool.model[s].len() + 1);
@@ -445,7 +469,7 @@ fn apply(pool: &mut Pool, op: &Op, st: &mut ExecStats) -> Result<(), (&'static s
             let (s, d) = (src % POOL, dst % POOL);
             let len = pool.model[s].len();
             let p = pos % (len + 1);
-            if s != d && pool.model[d].len() + (len - p) > 2 * MAX_LEN {
+            if s != d && pool.model[d].len() + (len - p) > 2 * pool.max_len {
                 return Ok(());
             }
             if p == 0 {
@@ -475,7 +499,7 @@ fn apply(pool: &mut Pool, op: &Op, st: &mut ExecStats) -> Result<(), (&'static s
             let (s, d) = (src % POOL, dst % POOL);
             let len = pool.model[s].len();
             let mut p = pos % (len + 1);
-            if s != d && pool.model[d].len() + (len - p) > 2 * MAX_LEN {
+            if s != d && pool.model[d].len() + (len - p) > 2 * pool.max_len {
                 return Ok(());
             }
             let use_threshold = *threshold && len > 0 && is_sorted(&pool.model[s]);
@@ -525,7 +549,7 @@ fn apply(pool: &mut Pool, op: &Op, st: &mut ExecStats) -> Result<(), (&'static s
         }
         Op::Merge { a, b, node_api } => {
             let (x, y) = (a % POOL, b % POOL);
-            if x == y || pool.model[x].len() + pool.model[y].len() > 2 * MAX_LEN {
+            if x == y || pool.model[x].len() + pool.model[y].len() > 2 * pool.max_len {
                 return Ok(());
             }
             let both_pending = pool.treaps[x].root().map(|i| !i.pending_is_identity()).unwrap_or(false) && pool.treaps[y].root().map(|i| !i.pending_is_identity()).unwrap_or(false);
@@ -679,18 +703,18 @@ pub struct ExecOut {
 /// Executes a record against the real treap.
 pub fn exec(rec: &Record, collect_states: bool) -> ExecOut {
     let mut it = rec.ops.iter();
-    exec_source(&rec.priorities, &mut |_, _| it.next().cloned(), collect_states).0
+    exec_source(&rec.priorities, rec.max_len, &mut |_, _| it.next().cloned(), collect_states).0
 }
 
 /// Executes operations drawn from `source` (which sees the model state, so that generated
 /// arguments can depend on the current sequences); returns the outcome and the operations.
 /// The priority list answers the draws of the library through the hook seam.
-pub fn exec_source(priorities: &[u32], source: &mut dyn FnMut(&[Vec<(u32, u64)>], usize) -> Option<Op>, collect_states: bool) -> (ExecOut, Vec<Op>) {
+pub fn exec_source(priorities: &[u32], max_len: usize, source: &mut dyn FnMut(&[Vec<(u32, u64)>], usize) -> Option<Op>, collect_states: bool) -> (ExecOut, Vec<Op>) {
     set_priorities(priorities.to_vec());
     NONID_PUSHES.with(|c| c.set(0));
     COMPOSED_PUSHES.with(|c| c.set(0));
     let mut st = ExecStats { probes: vec![0; PROBES.len()], ..Default::default() };
-    let mut pool = Pool { treaps: (0..POOL).map(|_| Treap::new()).collect(), model: vec![Vec::new(); POOL], last_mod: vec![None; POOL], next_uid: 1 };
+    let mut pool = Pool { treaps: (0..POOL).map(|_| Treap::new()).collect(), model: vec![Vec::new(); POOL], last_mod: vec![None; POOL], next_uid: 1, max_len };
     let mut violation: Option<Violation> = None;
     let mut ops_done: Vec<Op> = Vec::new();
 
